@@ -1,7 +1,8 @@
 #!/bin/bash
 # usage: tools/mutants.sh [ids...]   run the property's check against each seeded change in a scratch worktree (VF_REPO),
 # record the outcome in seeded/<id>/detect.txt.  /repo itself is never touched.
-WT=/tmp/wt/mut
+WT=${MUTWT:-/tmp/wt/mut}
+OUTD=${MUTOUT:-/tmp/wt/mut_out}
 cd /verif
 ids="$@"; [ -z "$ids" ] && ids=$(ls seeded)
 git -C /repo worktree remove --force $WT 2>/dev/null; git -C /repo worktree add -q --detach $WT HEAD || exit 1
@@ -13,7 +14,7 @@ for id in $ids; do
   only=$(python3 -c "import json,sys; m=json.load(open('$d/meta.json')); print(m.get('only',''))")
   git -C $WT checkout -q -- . ; git -C $WT checkout -q --detach ${base:-$(git -C /repo rev-parse HEAD)}
   git -C $WT apply $d/patch.diff || { echo "$id: patch does not apply"; continue; }
-  out=$(VF_OUT=/tmp/wt/mut_out VF_REPO=$WT ./check $prop --tier ${TIER:-quick} ${only:+--only $only} 2>&1); rc=$?
+  out=$(VF_OUT=$OUTD VF_REPO=$WT ./check $prop --tier ${TIER:-quick} ${only:+--only $only} 2>&1); rc=$?
   git -C $WT checkout -q -- .
   nviol=$(echo "$out" | grep -c "^VIOLATION")
   first=$(echo "$out" | grep "^VIOLATION" | head -2 | tr '\n' ' ')
@@ -21,4 +22,4 @@ for id in $ids; do
   { echo "check: ./check $prop --tier ${TIER:-quick} ${only:+--only $only} (scratch worktree ${base:+at $base }with the patch applied)"; echo "exit=$rc"; echo "$out" | grep "^VIOLATION\|^CHECKER\|^C[0-9][0-9] \["; } > $d/detect.txt
 done
 git -C /repo worktree remove --force $WT
-rm -rf /tmp/wt/mut_out
+rm -rf $OUTD
